@@ -569,7 +569,7 @@ def gen_response_case(g, tier, c17=None):
         via_lines = layout(g, NAMES_VIA, [v.text() for v in entries])
         headers = mix(g, [via_lines], [std_headers(g, method, ttag="tt9")], ext_headers(g, g.rint(0, 4)))
         body = body_of(g)
-        reason = g.pick(["OK", "Ringing", "Not Found", "Multiple Choices", "Busy Here", "Server Internal Error"])
+        reason = g.pick(["OK", "Ringing", "Not Found", "Multiple Choices", "Busy Here", "Server Internal Error", "OK", "Ringing", "", "Ol\xe9 \"x\" %41;,"])
         data = c.render("SIP/2.0 %d %s" % (code, reason), headers, body, g.pick(["\r\n", "\r\n", "\n"]))
         exp = ["spec=C02 " + expect_dest(dest_kind, dest_addr), "spec=C02 atmostone"]
         if dest_kind != "none":
